@@ -154,6 +154,8 @@ Section Pipeline.
     end.
 
   (* RunInspections *)
+  Definition insp_event (path : list str) (i : inspection) : list event :=
+    if is_nil (i_run i) then [] else [EvRunInspection path (i_name i)].
   Fixpoint run_inspections (path : list str) (dsse : bool) (w : World) (insps : list inspection) (acc : amap link) (tr : list event)
     : res (amap link * World) * list event :=
     match insps with
@@ -161,7 +163,8 @@ Section Pipeline.
     | i :: r =>
         match run_insp dsse w i with
         | Ok (l, w') =>
-            let tr' := tr ++ [EvRunInspection path (i_name i)] in
+            (* an inspection without a command executes nothing (its missing return value then fails the check below) *)
+            let tr' := tr ++ insp_event path i in
             if retval_zero l then run_inspections path dsse w' r (ainsert acc (i_name i) l) tr'
             else (Err e_retval, tr')
         | Err c => (Err c, tr)
